@@ -294,25 +294,43 @@ def branch_attr_signature(tree, executed_lines):
 def view_signature(ctx, var, path, leaf_shape, max_nodes=400, executed_lines=None, def_ranges=()):
   """Looks for the lost value among the bindings reachable along `path`."""
   exitn = ctx.exitpoint
-  vars_ = [var]
+  # Walk the path keeping, for every variable reached, whether the chain of container bindings
+  # leading to it is visible at exit; the first invisible link of a chain that leads to the lost
+  # value is the binding to diagnose.
+  frontier = [(var, None)]            # (variable, first invisible container binding on the way or None)
   for item in path:
     nxt = []
-    for v in vars_:
-      nxt.extend(_descend(v, item))
-    vars_ = nxt
-    if not vars_:
+    for v, broken in frontier:
+      for b in v.bindings:
+        link = broken
+        if link is None and not b.IsVisible(exitn):
+          link = b
+        one = type("V", (), {"bindings": [b]})()
+        for sub in _descend(one, item):
+          nxt.append((sub, link))
+    frontier = nxt
+    if not frontier:
       return {"found": False, "why": f"no variable along path at {item}"}
-  cands = []
-  for v in vars_:
+  cands_visible, invisible = [], []
+  for v, broken in frontier:
     for b in v.bindings:
       if _matches(b.data, leaf_shape):
-        cands.append(b)
-  if not cands:
+        if broken is not None:
+          invisible.append(broken)
+        elif b.IsVisible(exitn):
+          cands_visible.append(b)
+        else:
+          invisible.append(b)
+  if not cands_visible and not invisible:
     return {"found": False, "why": "no binding of the lost class exists in the item's variable"}
-  invisible = [b for b in cands if not b.IsVisible(exitn)]
-  if not invisible:
+  if cands_visible and not invisible:
     return {"found": True, "invisible": False,
             "why": "a binding of the lost class is visible at exit (lost later, in output/optimisation)"}
+  if cands_visible:
+    # some alternative is visible, yet the stub lacks the class: still a loss after the solver
+    pass
+  seen_ids = set()
+  invisible = [b for b in invisible if not (b.id in seen_ids or seen_ids.add(b.id))]
   sc = selfconflict_signature(invisible)
   if sc:
     return {"found": True, "invisible": True, "selfconflict": sc}
